@@ -187,7 +187,7 @@ impl Prop for MetadataMismatch {
         12000
     }
     fn cases(&self, tier: Tier) -> u32 {
-        tier.pick(1_200, 30_000)
+        tier.pick(6_000, 100_000)
     }
     fn decode(&self, t: &mut Tape, _: Tier) -> MismatchCase {
         let field = FIELDS[t.below(FIELDS.len())].to_string();
@@ -285,7 +285,7 @@ impl Prop for WeightHistory {
         16000
     }
     fn cases(&self, tier: Tier) -> u32 {
-        tier.pick(1_500, 30_000)
+        tier.pick(8_000, 120_000)
     }
     fn decode(&self, t: &mut Tape, _: Tier) -> HistoryCase {
         let n = t.urange(1, 3);
